@@ -27,6 +27,7 @@ THEOREMS = [
     "PorepyVerif.C12.tpfa_exact_Korth_dirichlet",
     "PorepyVerif.C12.tpfa_exact_neumann",
     "PorepyVerif.C12.tpfa_bound_pressure_exact_Korth",
+    "PorepyVerif.C12.tpfa_bound_pressure_dirichlet",
 ]
 LEAN_MODULES = ["PorepyVerif.C12.Props"]
 AUDIT = "PorepyVerif/C12/Audit.lean"
@@ -184,7 +185,7 @@ def gen_case(rng, tier):
             case["perturb"].append([i] + [frac(x) for x in d])
     # tensor
     nc = _num_cells(case)
-    mode = rng.choice(["iso", "diag", "diag", "full", "full", "korth"]) if shear is not None else rng.choice(["iso", "diag", "diag", "full", "full"])
+    mode = rng.choice(["iso", "diag", "full", "full", "korth", "korth"]) if shear is not None else rng.choice(["iso", "diag", "diag", "full", "full"])
     const = rng.random() < (0.7 if mode == "korth" else 0.4)
     base_modes = "diag" if mode == "korth" else mode
     vals = [_spd(rng, base_modes)] * nc if const else [_spd(rng, base_modes) for _ in range(nc)]
